@@ -45,6 +45,12 @@ SCRIPT = textwrap.dedent(
         """what failing calls raise: a FALSY exception instance (like an aggregate error with zero item failures)"""
         def __len__(self): return 0
 
+    class BadRepr:
+        """a user's callable object that cannot be shown: building the error for its failed call must not fail because of that"""
+        def __init__(self, f): self.f = f; self.__name__ = f.__name__; self.__qualname__ = f.__qualname__
+        def __call__(self, *a, **k): return self.f(*a, **k)
+        def __repr__(self): raise RuntimeError("repr of this callable raises")
+
     class Rec:
         """event log shared by stores and call functions"""
         def __init__(self): self.ev = []; self.lock = threading.Lock()
@@ -143,7 +149,8 @@ SCRIPT = textwrap.dedent(
                                     self.flaky[i] -= 1; rec.add("raise", i); raise FalsyError(f"flaky{i} attempt {self.attempts[i]}")
                                 time.sleep(0.0005 * (i % 3))
                                 rec.add("end", i); return FT(("V", i, a, tuple(k.items())))
-                            f.__name__ = f"fn{i}"; f.__qualname__ = f"fn{i}"; return f
+                            f.__name__ = f"fn{i}"; f.__qualname__ = f"fn{i}"
+                            return BadRepr(f) if i % 3 == 2 else f     # every third call is a callable OBJECT whose __repr__ raises
                         self.fns[i] = mk(i)
                         o = plan.call(self.fns[i], *pos, **kw)
                         if nd["stored"] and with_registry:
